@@ -19,7 +19,7 @@ ASSUMPTIONS = ['bools are not used as keys (True == 1)', 'xor with zero key colu
 
 
 def required(tier):
-    return {'join_rows_model': 300, 'xor_rows_model': 150, 'termination_step_budget': 500, 'operands_unchanged': 500, 'conservation_left_join': 100}
+    return {'join_rows_model': 300, 'xor_rows_model': 150, 'termination_step_budget': 500, 'operands_unchanged': 500, 'conservation_left_join': 100, 'repeat_after_column_reassignment': 100}
 
 
 def _isnan(v):
@@ -237,6 +237,27 @@ def run_case(case, ctx):
             xo = list(res['id']); ji = set(j['id'])
             ctx.check('conservation_left_join', sorted(xo + sorted(ji), key=repr) == sorted(x['id'], key=repr) and not (set(xo) & ji),
                       lambda: 'ids xor=%s join=%s all=%s' % (xo, sorted(ji), x['id']))
+    # second phase on the SAME table objects and key objects: reassign a key column (same length), repeat the operation.
+    # state remembered from the first call (e.g. a cached grouping) must not leak into the second.
+    if ok and case.get('phase2') and xr and op in ('join', 'xor'):
+        items = _keyspec(case['l']) or [c for c in xc if c in yc]
+        names = [i if isinstance(i, str) else i['f'] for i in items]
+        names = [c for c in names if c in xc]
+        if names:
+            c0 = names[0]
+            newcol = list(x[c0])
+            newcol = newcol[1:] + newcol[:1] if len(set(map(repr, newcol))) > 1 else [codec.dec(v, sess) for v in case['phase2']][:len(newcol)] + newcol[len(case['phase2']):]
+            if case.get('phase2_via') == 'attr':
+                setattr(x, c0, newcol)
+            else:
+                x[c0] = newcol
+            xr2 = rows_of(x)
+            with StepBudget(codes, budget):
+                st3, res3 = ctx.call(x.join, y, lcols, rcols, mode) if op == 'join' else ctx.call(x.xor, y, lcols, rcols)
+            m3 = model_join(xc, xr2, yc, yr, case['l'], case['r'], case['mode']) if op == 'join' else model_xor(xc, xr2, yc, yr, case['l'], case['r'])
+            ok3 = st3 == 'ok' and m3[0] == 'rows' and type(res3) is dictable and sorted(res3.keys()) == sorted(m3[1]) and \
+                collections.Counter(rowkey(r) for r in rows_of(res3)) == collections.Counter(rowkey(r) for r in m3[2])
+            ctx.check('repeat_after_column_reassignment', ok3, lambda: '%s repeated on the same table after reassigning column %r: got %s, model %s' % (op, c0, rows_of(res3) if st3 == 'ok' else res3, m3[2] if m3[0] == 'rows' else m3))
     # classes / non-triviality
     kl = _keycells(case, 'x'); kr = _keycells(case, 'y')
     if xr and yr:
@@ -359,7 +380,11 @@ def gen_case(rng, maxrows):
     r5 = rng.random()
     if r5 < 0.02 and nk >= 1 and l is not None:
         r = {'list': ['zz', 'yy', 'xx', 'ww'][:nk + 1]}  # length mismatch => ValueError
-    return {'x': {'cols': x}, 'y': {'cols': y}, 'l': _norm(l), 'r': _norm(r), 'mode': mode, 'op': op}
+    case = {'x': {'cols': x}, 'y': {'cols': y}, 'l': _norm(l), 'r': _norm(r), 'mode': mode, 'op': op}
+    if rng.random() < 0.3 and nk:
+        case['phase2'] = [keycell(rng, kinds[0]) for _ in range(nl)]
+        case['phase2_via'] = rng.choice(['item', 'attr'])
+    return case
 
 
 def _norm(s):
